@@ -203,7 +203,7 @@ class Gen(object):
     """
 
     def __init__(self, rng, n_decls=8, max_members=6, ext_sizers=True, floats=True, greedy=True,
-                 shared_sizers=True, consts=True, typedefs=True, prefix=''):
+                 shared_sizers=True, consts=True, typedefs=True, prefix='', small_discs=False):
         self.rng = rng
         self.n_decls = n_decls
         self.max_members = max_members
@@ -214,6 +214,7 @@ class Gen(object):
         self.consts = consts
         self.typedefs = typedefs
         self.prefix = prefix
+        self.small_discs = small_discs
         self.counter = itertools.count()
 
     def fresh(self, stem):
@@ -342,7 +343,7 @@ class Gen(object):
         rng = self.rng
         name = self.fresh('U')
         n = rng.randint(1, 4)
-        discs = rng.sample([0, 1, 2, 3, 4, 7, 100, 0xffffffff], n)
+        discs = rng.sample([0, 1, 2, 3, 4, 7, 100, 0x7fffffff if self.small_discs else 0xffffffff], n)
         arms = []
         for i, d in enumerate(discs):
             arms.append(('a%d' % i, d, self.pick_type(s, None)))
